@@ -1,12 +1,12 @@
 #!/bin/bash
-# round-3 helper: confirm a seeded change in /tmp/mut3/<id>, save it as seeded/<id>-c, remove the worktree, run checks
+# round-3 helper: confirm a seeded change in ${MUTDIR:-/tmp/mut3}/<id>, save it as seeded/<id>-c, remove the worktree, run checks
 p=$1; shift
-WT=/tmp/mut3/$p
-if [ -d $WT/demo_seeded ]; then /verif/scripts/confirm_mut_cl.sh $WT | tee /tmp/mut3/$p.confirm; else /verif/scripts/confirm_mut.sh $WT | tee /tmp/mut3/$p.confirm; fi
-d=/verif/seeded/$p-c; mkdir -p $d
+WT=${MUTDIR:-/tmp/mut3}/$p
+if [ -d $WT/demo_seeded ]; then /verif/scripts/confirm_mut_cl.sh $WT | tee ${MUTDIR:-/tmp/mut3}/$p.confirm; else /verif/scripts/confirm_mut.sh $WT | tee ${MUTDIR:-/tmp/mut3}/$p.confirm; fi
+d=/verif/seeded/$p-${SUFFIX:-c}; mkdir -p $d
 (cd $WT && git diff -- src > $d/patch.diff)
 cp $WT/meta.json $d/ 2>/dev/null
 [ -f $WT/tests/demo_seeded.rs ] && cp $WT/tests/demo_seeded.rs $d/
 [ -d $WT/demo_seeded ] && { mkdir -p $d/demo_seeded; cp -r $WT/demo_seeded/src $WT/demo_seeded/Cargo.toml $d/demo_seeded/ 2>/dev/null; }
 git -C /repo worktree remove --force $WT
-cd /verif && scripts/runmut.sh seeded/$p-c ${@:-$p}
+cd /verif && scripts/runmut.sh seeded/$p-${SUFFIX:-c} ${@:-$p}
